@@ -1091,6 +1091,32 @@ fn c05_unsubscribe(out: &mut Out) {
     out.bounded(contract, "ls-subscriptions on root, a, a/b, a/b/c, x registered in both orders; each one cancelled in turn; then one new child below every parent", cases, cases);
 }
 
+/// C05: `ls` takes the parent literally: every '/' separates, empty segments are segments
+fn c05_ls_parents(out: &mut Out) {
+    let rt = rt();
+    let contract = "C05/ls answers the children of exactly the requested parent (empty segments are segments; a parent nothing is stored at or below is 'no such value')";
+    let cases: [(&str, Option<&[&str]>); 9] = [("a", Some(&["", "b"])), ("a/", Some(&["c"])), ("", Some(&["d"])), ("a//", None), ("/", None), ("a/b", Some(&[])), ("a//c", Some(&[])), ("//", None), ("b", None)];
+    let problems: Vec<Value> = rt.block_on(async {
+        let cfg = worterbuch::Config::new(None).await.expect("config");
+        let mut wb = Worterbuch::with_config(cfg);
+        let internal = worterbuch_common::INTERNAL_CLIENT_ID;
+        for k in ["a/b", "a//c", "/d"] { wb.set(k.into(), json!(1), internal, true).await.expect("set"); }
+        let mut problems = vec![];
+        for (parent, want) in cases {
+            let got = wb.ls(&Some(parent.to_owned())).map(|mut l| { l.sort(); l });
+            let ok = match (&got, want) {
+                (Ok(l), Some(w)) => l.iter().map(|s| s.as_str()).collect::<Vec<_>>() == w.to_vec(),
+                (Err(e), None) => expect_code(e) == "NoSuchValue",
+                _ => false,
+            };
+            if !ok { problems.push(json!({"stored": ["a/b", "a//c", "/d"], "ls of parent": parent, "got": format!("{got:?}"), "expected": format!("{want:?}")})); }
+        }
+        problems
+    });
+    for w in problems { out.report(contract, Some("UNLISTED"), w); }
+    out.bounded(contract, "keys a/b, a//c, /d; 9 parents with and without empty segments", cases.len(), cases.len());
+}
+
 // ================================================================================================
 // C07: what the end of a session does - and what it leaves alone (bounded scenarios on the real Worterbuch)
 
@@ -1426,7 +1452,7 @@ fn main() {
     // "UNLISTED" is never accepted
     out.accepted.remove("UNLISTED");
     match prop {
-        "C01" | "C05" | "C17" | "C02" => { store_seqs(&mut out, prop, thorough, seed); leaves_store(&mut out); if prop == "C02" { c02_clients(&mut out); } if prop == "C05" { c05_unsubscribe(&mut out); } if prop == "C17" {
+        "C01" | "C05" | "C17" | "C02" => { store_seqs(&mut out, prop, thorough, seed); leaves_store(&mut out); if prop == "C02" { c02_clients(&mut out); } if prop == "C05" { c05_unsubscribe(&mut out); c05_ls_parents(&mut out); } if prop == "C17" {
             // only the panics of the lock and $SYS scenarios belong to C17
             let mut tmp = Out::default();
             c06(&mut tmp, false);
